@@ -184,6 +184,8 @@ type State struct {
 	siteCtr int // per-path counter naming fork sites
 	reached []string
 	sharded bool
+	snap    *lmap[int, Val] // heap snapshot (vfHeapSnapshot)
+	snapG   *lmap[string, int]
 	trackShared  bool
 	sharedEpoch  int
 	sharedWrites int
@@ -301,6 +303,9 @@ func (st *State) hset(id int, v Val) {
 		if len(st.sharedWhere) < 4 && len(st.frames) > 0 {
 			st.sharedWhere = append(st.sharedWhere[:len(st.sharedWhere):len(st.sharedWhere)], st.frames[len(st.frames)-1].fn.String())
 		}
+	}
+	if st.log != nil && st.thread != 0 && id <= st.log.epoch {
+		st.log.note(st, PtrVal{obj: id}, true)
 	}
 	st.heap.set(id, v)
 }
